@@ -60,7 +60,7 @@ type Prop struct{}
 func (Prop) ID() string { return "C20" }
 func (Prop) Size(tier string) int {
 	if tier == "thorough" {
-		return 1200000
+		return 800000
 	}
 	return 30000
 }
